@@ -31,15 +31,18 @@ def run(ctx):
                   'handed back to the Loop with them as the caller)', minimum=10)
     rmv = ctx.rule('R-MOVEOUT.site', 'the strategies take input values through Retire(); no move-out of a possibly '
                    'shared input core', minimum=0)
+    rpf = ctx.rule('R-POLICYFWD', 'a function instantiated with a FailPolicy hands the same policy to every callee that '
+                   'is parameterised by one (entry point -> when::When -> strategy class)', minimum=9)
     for cfg, fb in sorted(fbs.items()):
-        lib_core.check_move_sites(ctx, fb, rmv, lambda f: 'async/when' in f.file)
-        lib_core.check_loop_caller(ctx, fb, rlc, lambda f: f.clsq.startswith('yaclib::when::'))
+        ctx.guard(lambda: lib_when.check_policy_forward(ctx, fb, rpf, r'^yaclib::WhenAny$', True))
+        ctx.guard(lambda: lib_core.check_move_sites(ctx, fb, rmv, lambda f: 'async/when' in f.file))
+        ctx.guard(lambda: lib_core.check_loop_caller(ctx, fb, rlc, lambda f: f.clsq.startswith('yaclib::when::')))
         fns = lib_accessor.functions_with_accessors(fb, ANY_FILES)
         if not fns:
             ctx.broken('no accessor call found in when/any.hpp (%s)' % cfg)
-        lib_accessor.check(ctx, fb, ra, fns, EXEMPT)
-        lib_core.check_node_reuse(ctx, fb, rnr, lambda f: 'async/when' in f.file)
-        lib_when.check_setonce(ctx, fb, rs, ('yaclib::when::Any',))
-        lib_when.check_lastfail(ctx, fb, rl)
-        lib_when.check_saved_error(ctx, fb, re_)
-        lib_order.check(ctx, fb, cfg, ['yaclib::when::Any::_done', 'yaclib::when::Any::_state'], rw, ro, rc)
+        ctx.guard(lambda: lib_accessor.check(ctx, fb, ra, fns, EXEMPT))
+        ctx.guard(lambda: lib_core.check_node_reuse(ctx, fb, rnr, lambda f: 'async/when' in f.file))
+        ctx.guard(lambda: lib_when.check_setonce(ctx, fb, rs, ('yaclib::when::Any',)))
+        ctx.guard(lambda: lib_when.check_lastfail(ctx, fb, rl))
+        ctx.guard(lambda: lib_when.check_saved_error(ctx, fb, re_))
+        ctx.guard(lambda: lib_order.check(ctx, fb, cfg, ['yaclib::when::Any::_done', 'yaclib::when::Any::_state'], rw, ro, rc))
